@@ -159,3 +159,34 @@ func H_C11_two_frames() {
 	vCheck(e3 != nil, "two/then-eof")
 	vCover("end")
 }
+
+// Two messages sent over one transport: the second frame's header describes the second message only (no header state
+// survives from the first Send), and the receiving side gets both messages back.
+func H_C11_two_sends() {
+	a, b := vParam("a"), vParam("b")
+	pa, pb := make([]byte, a), make([]byte, b)
+	if a > 0 {
+		pa[0], pa[a-1] = vU8("a.first"), vU8("a.last")
+	}
+	if b > 0 {
+		pb[0], pb[b-1] = vU8("b.first"), vU8("b.last")
+	}
+	c := &scriptConn{}
+	n := &NBTTransport{conn: c}
+	_, e1 := n.Send(pa)
+	_, e2 := n.Send(pb)
+	vCheck(e1 == nil && e2 == nil, "sends/accepted")
+	vCheck(len(c.out) == 8+a+b, "sends/two-frames-on-the-wire")
+	if len(c.out) == 8+a+b {
+		h := c.out[4+a : 8+a]
+		vCheck(h[0] == 0 && h[1] == byte((b>>16)&1) && h[2] == byte(b>>8) && h[3] == byte(b), "sends/second-header-describes-the-second-message")
+		r := &NBTTransport{conn: &scriptConn{in: c.out}}
+		g1, r1 := r.Receive()
+		g2, r2 := r.Receive()
+		vCheck(r1 == nil && r2 == nil, "sends/both-received")
+		if r1 == nil && r2 == nil {
+			vCheck(vBytesEq(g1, pa) && vBytesEq(g2, pb), "sends/received-equal-sent")
+		}
+	}
+	vCover("end")
+}
